@@ -237,9 +237,9 @@ def specFromFloat (f : Spec.FloatFmt) (bits : Nat) : String :=
   let (num, den) := Spec.decodeBits f (bits % 2 ^ (f.bits - 1))
   let n : Int := if neg then -(num : Int) else num
   let r := Spec.specRound .heven (n * 10 ^ 18) den
-  if Spec.fits r && r ≠ -(2 : Int) ^ 127 then
-    let (c, k) := Spec.normalizeSpec 19 r 18
-    s!"ok {c} {k}"
+  let (c, k) := Spec.normalizeSpec 19 r 18
+  if c = -(2 : Int) ^ 127 then s!"ok {c} {k}|err InternalOverflow"
+  else if Spec.fits c then s!"ok {c} {k}"
   else "err InternalOverflow"
 
 def specIntoFloat (f : Spec.FloatFmt) (a : Int) (p : Nat) : String :=
